@@ -68,6 +68,9 @@ type Case struct {
 	RegOps       []RegOp  `json:"regOps,omitempty"`
 	RegAuth      []string `json:"regAuth,omitempty"`
 	Edits        []string `json:"edits,omitempty"` // how the registration calls were derived from the exact set (informational)
+	// LateGlobals: the description is loaded without its top-level consumes/produces lists; the application sets them on
+	// the loaded document (doc.Spec()) before it builds the API from it
+	LateGlobals bool `json:"lateGlobals,omitempty"`
 }
 
 const jsonMime = "application/json"
@@ -99,7 +102,10 @@ func defJSON(i int, name string) M {
 }
 
 // Document renders the Swagger 2.0 description of the case.
-func (c Case) Document() []byte {
+func (c Case) Document() []byte { return c.document(false) }
+
+// document renders the description; asLoaded leaves out what LateGlobals adds after loading.
+func (c Case) document(asLoaded bool) []byte {
 	paths := M{}
 	for i, op := range c.Ops {
 		item, _ := paths[op.Path].(M)
@@ -133,10 +139,10 @@ func (c Case) Document() []byte {
 	if c.BasePath != "" {
 		doc["basePath"] = c.BasePath
 	}
-	if len(c.Consumes) > 0 {
+	if len(c.Consumes) > 0 && !(asLoaded && c.LateGlobals) {
 		doc["consumes"] = c.Consumes
 	}
-	if len(c.Produces) > 0 {
+	if len(c.Produces) > 0 && !(asLoaded && c.LateGlobals) {
 		doc["produces"] = c.Produces
 	}
 	if len(c.Defs) > 0 {
@@ -353,9 +359,13 @@ func (c Case) brief() string {
 // Check validates the API built from the case against the set model, and exercises it when it validated and
 // belongs to the restricted class.
 func Check(c Case) *kit.Violation {
-	doc, err := loads.Analyzed(json.RawMessage(c.Document()), "")
+	doc, err := loads.Analyzed(json.RawMessage(c.document(true)), "")
 	if err != nil {
 		return kit.Failf("HARNESS: the generated description does not load: %v\n%s", err, c.Document())
+	}
+	if c.LateGlobals {
+		doc.Spec().Consumes = append([]string(nil), c.Consumes...)
+		doc.Spec().Produces = append([]string(nil), c.Produces...)
 	}
 	log := &calls{}
 	var api *untyped.API
@@ -511,6 +521,10 @@ func (c Case) Shots() (shots []Shot, skipped []int) {
 			}
 		}
 		shots = append(shots, Shot{i, cons[0], pref + ", " + prods[0] + ";q=0.5"})
+		if cons[0] != "" {
+			// the media type of the payload spelled with capitals: media types are case-insensitive
+			shots = append(shots, Shot{i, strings.ToUpper(cons[0][:1]) + cons[0][1:strings.IndexByte(cons[0], '/')+1] + strings.ToUpper(cons[0][strings.IndexByte(cons[0], '/')+1:]), prods[0]})
+		}
 	}
 	return shots, skipped
 }
